@@ -221,6 +221,20 @@ fn renders(cmd: &clap::Command) -> Vec<Render> {
             Ok(_) => v.push(Render { name, long, text: "<<parsed>>".into(), sub_level: sub, usage_only: true }),
         }
     }
+    // after an explicit `Command::build` (help tree expanded for introspection): the help of the
+    // generated `help` subcommand, asked for on the line and rendered directly. Only the clauses
+    // that hold for every output apply (size, padding, nothing hidden).
+    {
+        let mut b = cmd.clone();
+        b.build();
+        if let Err(e) = b.clone().try_get_matches_from_mut(["prog", "help", "help"]) {
+            v.push(Render { name: "built: help help", long: true, text: e.render().to_string(), sub_level: false, usage_only: true });
+        }
+        if let Some(h) = b.find_subcommand_mut("help") {
+            v.push(Render { name: "built: render_help of help", long: false, text: h.render_help().to_string(), sub_level: false, usage_only: true });
+            v.push(Render { name: "built: render_long_help of help", long: true, text: h.render_long_help().to_string(), sub_level: false, usage_only: true });
+        }
+    }
     v
 }
 
@@ -271,7 +285,7 @@ fn check(spec: &CmdSpec, shapes: &[(String, String)], cm: &str) -> Vec<(String, 
         if maxrun > 512 {
             bad.push((format!("{}: unbounded padding", r.name), format!("a run of {} spaces", maxrun)));
         }
-        if r.name != "render_usage" && r.usage_only {
+        if r.name != "render_usage" && !r.name.starts_with("built:") && r.usage_only {
             bad.push((format!("{}: the help flag did not produce help", r.name), t.clone()));
             continue;
         }
